@@ -247,6 +247,7 @@ pub struct CaseResult {
 
 pub fn check_program(base: &Xstate, prog: &[N]) -> CaseResult {
     let src = source(prog);
+    watch::note(&src);
     let rp = match resolve_program(prog) {
         Some(p) => p,
         None => {
